@@ -6,6 +6,7 @@
 //!   hs:X   release the parked STARTUP answer of a new connection X (completes its handshake)
 //!   ack:X  release the parked answer to `USE ..` on connection X
 //!   kill:X RST an established pool connection (the pool refills with a new connection)
+//!   nak:X  answer the parked `USE ..` of pool connection X with an Invalid error instead (the call must not return Ok)
 //!   add    a third node joins: NEW_NODE on the control connection, the driver opens a pool to it
 //! After EVERY step the harness issues user requests (uniquely numbered statements) and records, at the moment of
 //! issuing, which use_keyspace calls had already returned Ok (read from flags set by the calling tasks, i.e. from the
@@ -42,11 +43,12 @@ struct Cfg {
     sharded: bool,
     kills: u32,
     adds: u32,
+    naks: u32,
     max_steps: usize,
 }
 impl Cfg {
     fn json(&self) -> Value {
-        json!({"pool": self.pool, "calls": self.calls, "sharded": self.sharded, "kills": self.kills, "adds": self.adds, "max_steps": self.max_steps})
+        json!({"pool": self.pool, "calls": self.calls, "sharded": self.sharded, "kills": self.kills, "adds": self.adds, "naks": self.naks, "max_steps": self.max_steps})
     }
     fn from_json(v: &Value) -> Cfg {
         Cfg {
@@ -55,6 +57,7 @@ impl Cfg {
             sharded: v["sharded"].as_bool().unwrap_or(false),
             kills: v["kills"].as_u64().unwrap_or(1) as u32,
             adds: v["adds"].as_u64().unwrap_or(1) as u32,
+            naks: v["naks"].as_u64().unwrap_or(0) as u32,
             max_steps: v["max_steps"].as_u64().unwrap_or(14) as usize,
         }
     }
@@ -72,6 +75,8 @@ struct MConn {
     needs_sync: bool,
     last_use_seen: Option<usize>,
     acked: Option<usize>,
+    /// the USE of call k was answered with an error on this connection
+    nak: Option<usize>,
 }
 impl MConn {
     fn name(&self) -> String {
@@ -98,6 +103,7 @@ struct RunStats {
     window_requests: u64,
     trace: Vec<String>,
     states: Vec<u64>,
+    state_strs: Vec<String>,
 }
 
 enum Fail {
@@ -125,6 +131,7 @@ struct World {
     started_flags: [bool; 2],
     kills_left: u32,
     adds_left: u32,
+    naks_left: u32,
     reqs: Vec<ReqRec>,
     next_req: u64,
     stats: RunStats,
@@ -165,7 +172,7 @@ impl World {
         infos.sort_by_key(|c| (c.node, c.id));
         for c in infos.iter().filter(|c| c.ready && c.registered.is_empty()) {
             let o = ords.entry(c.node).or_insert(0);
-            conns.push(MConn { id: c.id, node: c.node, ord: *o, alive: true, hs_parked: None, use_parked: None, pooled: true, needs_sync: true, last_use_seen: None, acked: None });
+            conns.push(MConn { id: c.id, node: c.node, ord: *o, alive: true, hs_parked: None, use_parked: None, pooled: true, needs_sync: true, last_use_seen: None, acked: None, nak: None });
             *o += 1;
         }
         let mut w = World {
@@ -185,6 +192,7 @@ impl World {
             started_flags: [false, false],
             kills_left: cfg.kills,
             adds_left: cfg.adds,
+            naks_left: cfg.naks,
             reqs: Vec::new(),
             next_req: 0,
             stats: RunStats::default(),
@@ -276,7 +284,7 @@ impl World {
             .await
             .map_err(stuck)?;
         let ord = self.conns.iter().filter(|c| c.node == node).count();
-        self.conns.push(MConn { id: a.conn, node, ord, alive: true, hs_parked: Some(a.id), use_parked: None, pooled: false, needs_sync: false, last_use_seen: None, acked: None });
+        self.conns.push(MConn { id: a.conn, node, ord, alive: true, hs_parked: Some(a.id), use_parked: None, pooled: false, needs_sync: false, last_use_seen: None, acked: None, nak: None });
         Ok(())
     }
 
@@ -346,7 +354,7 @@ impl World {
             }
             if let Some((k, _)) = &self.inflight {
                 let k = *k;
-                if self.snapshot.iter().all(|&i| !self.conns[i].alive || self.conns[i].acked == Some(k)) {
+                if self.snapshot.iter().all(|&i| !self.conns[i].alive || self.conns[i].acked == Some(k) || self.conns[i].nak == Some(k)) {
                     let (_, h) = self.inflight.take().unwrap();
                     let ok = tokio::time::timeout(mockcluster::DEADLINE, h)
                         .await
@@ -366,12 +374,16 @@ impl World {
         }
     }
 
-    fn state_hash(&self) -> u64 {
-        let mut s = format!("pend={:?} cur={:?} infl={:?} started={} k={} a={} f={}{};", self.pending.as_ref().map(|x| x.0), self.current, self.inflight.as_ref().map(|x| x.0), self.started, self.kills_left, self.adds_left, self.flags[0].load(Ordering::SeqCst), self.flags[1].load(Ordering::SeqCst));
+    /// Canonical description of the MODEL state (what the server can see + the harness's own steps). The calls'
+    /// return values are deliberately not part of it: an answer followed at once by an RST of the same connection may
+    /// or may not reach the client (TCP discards unread data on reset), so e.g. `nak:X, kill:X` lets the call end Ok or
+    /// Err; the enabled sets and the oracle do not depend on that.
+    fn state_string(&self) -> String {
+        let mut s = format!("pend={:?} cur={:?} infl={:?} started={} k={} a={} n={};", self.pending.as_ref().map(|x| x.0), self.current, self.inflight.as_ref().map(|x| x.0), self.started, self.kills_left, self.adds_left, self.naks_left);
         for c in &self.conns {
-            s.push_str(&format!("{}:{}{}{}{:?}{:?};", c.name(), c.alive as u8, c.hs_parked.is_some() as u8, c.pooled as u8, c.use_parked.map(|u| u.1), c.acked));
+            s.push_str(&format!("{}:{}{}{}{:?}{:?}{:?};", c.name(), c.alive as u8, c.hs_parked.is_some() as u8, c.pooled as u8, c.use_parked.map(|u| u.1), c.acked, c.nak));
         }
-        vcore::fnv64(s.as_bytes())
+        s
     }
 
     /// Enabled actions in canonical order; element 0 is the default.
@@ -405,6 +417,14 @@ impl World {
             }
             if self.adds_left > 0 {
                 v.push("add".to_string());
+            }
+            if self.naks_left > 0 {
+                for &i in &order {
+                    let c = &self.conns[i];
+                    if c.alive && c.pooled && c.use_parked.is_some() {
+                        v.push(format!("nak:{}", c.name()));
+                    }
+                }
             }
         }
         v
@@ -456,6 +476,14 @@ impl World {
                 self.conns[i].pooled = true;
                 self.conns[i].needs_sync = true;
             }
+        } else if let Some(name) = action.strip_prefix("nak:") {
+            let i = self.conn_by_name(name);
+            self.naks_left -= 1;
+            let (id, k) = self.conns[i].use_parked.take().unwrap();
+            if !self.cluster.release_with(id, Reply::error(mockcluster::wire::ErrorBody::invalid("mock: this node refuses the keyspace"))) {
+                return Err(stuck(format!("parked USE answer of {name} vanished")));
+            }
+            self.conns[i].nak = Some(k);
         } else if let Some(name) = action.strip_prefix("kill:") {
             let i = self.conn_by_name(name);
             self.kills_left -= 1;
@@ -552,7 +580,9 @@ async fn run(cfg: Cfg, ch: &mut Chooser) -> Result<RunStats, Fail> {
     let res: Result<(), Fail> = async {
         w.requests_after_step().await;
         loop {
-            w.stats.states.push(w.state_hash());
+            let ss = w.state_string();
+            w.stats.states.push(vcore::fnv64(ss.as_bytes()));
+            w.stats.state_strs.push(ss);
             let en = w.enabled();
             let costs: Vec<u32> = (0..en.len()).map(|i| if i == 0 { 0 } else { 1 }).collect();
             let pick = ch.choose_costed("step", &costs);
@@ -647,12 +677,16 @@ fn main() {
     let mut cfgs = Vec::new();
     for calls in [1usize, 2] {
         for pool in [1usize, 2] {
-            cfgs.push(Cfg { pool, calls, sharded: false, kills: 1, adds: 1, max_steps: 14 });
+            // error answers (nak): in the single-connection pools (and the sharded configuration of the thorough tier)
+            cfgs.push(Cfg { pool, calls, sharded: false, kills: 1, adds: 1, naks: if pool == 1 { 1 } else { 0 }, max_steps: 14 });
         }
     }
     if thorough {
-        cfgs.push(Cfg { pool: 1, calls: 2, sharded: true, kills: 1, adds: 1, max_steps: 14 });
-        cfgs.push(Cfg { pool: 1, calls: 2, sharded: false, kills: 2, adds: 1, max_steps: 16 });
+        cfgs.push(Cfg { pool: 1, calls: 2, sharded: true, kills: 1, adds: 1, naks: 1, max_steps: 14 });
+        cfgs.push(Cfg { pool: 1, calls: 2, sharded: false, kills: 2, adds: 1, naks: 0, max_steps: 16 });
+    }
+    if let Some(only) = r.args.extra_value("--only-cfg").and_then(|s| s.parse::<usize>().ok()) {
+        cfgs = vec![cfgs[only]];
     }
     let states: Mutex<HashSet<u64>> = Mutex::new(HashSet::new());
     let traces: Mutex<BTreeSet<String>> = Mutex::new(BTreeSet::new());
@@ -697,6 +731,9 @@ fn main() {
                         rr.nontrivial(1);
                     }
                     states.lock().unwrap().extend(st.states.iter().copied());
+                    if st.trace.iter().any(|a| a.starts_with("kill")) && st.trace.iter().any(|a| a == "add") && st.calls_ok as usize == cfg.calls {
+                        rr.sample(json!({"cfg": cfg.json(), "choices": ch.choices(), "steps": st.trace, "requests": st.requests, "frames_checked_strict": st.strict_frames}));
+                    }
                     let key = format!("{:?}|{:?}", cfg.json().to_string(), st.trace);
                     traces.lock().unwrap().insert(key);
                     // determinism audit: a deterministic 1-in-8 subset is executed again with the same choices
@@ -706,7 +743,17 @@ fn main() {
                             Ok(st2) if st2.trace == st.trace && st2.states == st.states => {
                                 audited.fetch_add(1, Ordering::Relaxed);
                             }
-                            Ok(st2) => vcore::machinery_error(&format!("replay of {:?} diverged: {:?} vs {:?}", ch.choices(), st.trace, st2.trace)),
+                            Ok(st2) => {
+                                let d = st.state_strs.iter().zip(st2.state_strs.iter()).position(|(a, b)| a != b);
+                                vcore::machinery_error(&format!(
+                                    "replay of {:?} diverged: steps {:?} vs {:?}; first differing state #{d:?}: {:?} vs {:?}",
+                                    ch.choices(),
+                                    st.trace,
+                                    st2.trace,
+                                    d.map(|i| &st.state_strs[i]),
+                                    d.map(|i| &st2.state_strs[i])
+                                ))
+                            }
                             Err(Fail::Violation(k, w)) => rr.violation(&k, &w, json!({"leg":"order","cfg":cfg.json(),"choices":ch.choices()})),
                             Err(Fail::Stuck(e)) => vcore::machinery_error(&format!("replay of {:?} stalled: {e}", ch.choices())),
                         }
@@ -734,9 +781,6 @@ fn main() {
             break;
         }
         println!("cfg {} bound {} -> {} executions, longest {} choice points, {} violations", cfg.json(), bound, res.executions, res.max_points, res.violations.len());
-        for s in res.sample_traces.iter().take(1) {
-            r.sample(json!({"cfg": cfg.json(), "choices": s}));
-        }
     }
     r.states.store(states.lock().unwrap().len() as u64, Ordering::Relaxed);
     r.traces_validated.store(audited.load(Ordering::Relaxed), Ordering::Relaxed);
